@@ -39,6 +39,10 @@ def gen_case(rnd):
     fault = rnd.choice(['devfull', 'dir', 'none', 'outdir', 'fsize', 'fsize'] + CREATE_FAULTS)
     # the length of the paths is part of the environment: an output directory whose path alone is longer than 256 / 1024 bytes
     c = dict(names=names, big=big, idx=i, fault=fault, longout=rnd.choice([0, 0, 0, 2, 3, 9]))
+    # the logger is part of the path an error takes: an unprivileged generator cannot open /dev/kmsg and falls back to stderr —
+    # with the default logging (no --no-kmsg-log) the very first message of the run is the one that finds that out
+    c['unpriv'] = fault == 'eacces' or (fault in ('dir', 'dangling', 'notdir') and rnd.random() < 0.4)
+    c['kmsg'] = c['unpriv'] and rnd.random() < 0.6
     if fault == 'fsize':
         # a byte budget per file: the victim is the only large unit, the budget lies between the small services and the victim
         c['big'] = {nm: nm == names[i] for nm in names}
@@ -52,7 +56,7 @@ def run(case_rnd):
     rnd = random.Random(seed)
     base = e2e.fresh_dir()
     as_uid, binary = None, None
-    if case['fault'] == 'eacces':
+    if case.get('unpriv', case['fault'] == 'eacces'):
         # a permission fault needs an unprivileged generator: staged below /tmp with open permissions and a copy of the binary
         import tempfile
         shutil.rmtree(base, ignore_errors=True)
@@ -88,7 +92,9 @@ def run(case_rnd):
             os.symlink(target, os.path.join(out, victim + '.service'))
     if as_uid is not None:
         subprocess.run(['chmod', '-R', 'a+rX', os.path.join(base, 'src')])
-    rc, so, se = e2e.run_binary(['--no-kmsg-log', out], os.path.join(base, 'src'), fsize_limit=case.get('limit'), as_uid=as_uid, binary=binary)
+    if as_uid is not None and os.path.isdir(out):
+        os.chmod(out, 0o777)   # (the directory only: the fault inside it keeps its permissions)
+    rc, so, se = e2e.run_binary(([] if case.get('kmsg') else ['--no-kmsg-log']) + [out], os.path.join(base, 'src'), fsize_limit=case.get('limit'), as_uid=as_uid, binary=binary)
     snap = e2e.snapshot(out) if os.path.isdir(out) else {}
     # what would have been written (piece sizes) from a dry run
     rc2, so2, se2 = e2e.run_binary(['--dry-run', '--no-kmsg-log', out], os.path.join(base, 'src'))
